@@ -22,10 +22,22 @@ Proved (for all 50 traced angle entry points × 3 formats, all inputs):
 * `symmetric` — exchanging the arguments gives the bit-identical result (commutativity of the
   floating-point product, same summation order);
 * `quantity_level_is_kernel` — the quantity-level constructors and members are exactly the kernels.
-Not proved in Lean (`angle_close_partial`, length independence): agreement with atan2 and exact
-invariance under power-of-two rescaling; both are exercised on the real code by the search.
+* `value_is_arccos`, `cos_*`, `kernels_compute_the_angle` — over the reals (all rounding ignored) every
+  entry point returns `arccos c` of one expression `c` on every path (the clamp is invisible there,
+  `arccos` being constant beyond `±1`), and for each of the 8 kernels in each of the 3 formats `c` is
+  `a·b / (|a||b|)` (for a direction argument: under `|d| = 1`): the kernel computes
+  `angleR a b = arccos (a·b / (|a||b|))`;
+* for `angleR` (Theory/AngleReal.lean), for all vectors: `symmetric_over_reals`, `length_independent`,
+  `range_over_reals`, `parallel_is_zero`, `antiparallel_is_pi`, and `is_atan2`:
+  `cos θ·|a||b| = a·b ∧ sin θ·|a||b| = |a × b| ∧ θ ∈ [0, π]`, the defining equations of
+  `atan2(|a × b|, a·b)`.
+Not proved in Lean: the *floating-point* distance to that real angle (1e-7 rad in double, the
+conditioning of `acos` at `±1`) and bit-exact invariance under power-of-two rescaling; both are
+exercised on the real code by the search, against an exact reference.
 -/
 import PhQVerif.Theory.Angle
+import PhQVerif.Theory.AngleReal
+import PhQVerif.Generated.Obl_C11exact
 import PhQVerif.Checkers
 import PhQVerif.Generated.Obl_C11clamp
 import PhQVerif.Generated.Obl_C11sym
@@ -94,6 +106,236 @@ theorem quantity_level_is_kernel : ∀ t ∈ AngleKernel.rows, t.1.tree = t.2.tr
 trees (`1 < -1` on the lower-clamp branch) have the recorded outcome. -/
 theorem folded_constant_comparisons : ∀ r ∈ ConstCmp.rows, Chk.ConstCmp r = true :=
   fun r hr => List.all_eq_true.mp Obl.ConstCmp r hr
+
+/-! ### Over the reals: every kernel computes the angle -/
+
+/-- **C11 (one expression).** Over the reals every angle entry point returns, on every input and
+along every path, the arc cosine of the single expression it clamps. -/
+theorem value_is_arccos : ∀ e ∈ AngleEntries.rows, ∀ x : Nat → ℝ,
+    e.tree.valuesR x = some [some (Real.arccos (e.cosR x))] := by
+  intro e he x
+  exact checkAngleExact_sound (List.all_eq_true.mp Obl.C11exact e he) x
+
+/-- Unfold the clamped expression of a generated kernel down to arithmetic on its inputs. -/
+macro "unfold_cos" e:term : tactic =>
+  `(tactic| simp [Entry.cosR, DTree.angleCos, isLitOne, $e:term, Expr.evalR, BinOp.evalR, UnOp.evalR,
+      cosineR, V3, V2, dotProduct, Fin.sum_univ_three])
+
+/-- `|d| = 1` for inputs `o, o+1, o+2` read as a direction. -/
+def Unit3 (x : Nat → ℝ) (o : Nat) : Prop := x o * x o + x (o + 1) * x (o + 1) + x (o + 2) * x (o + 2) = 1
+/-- `|d| = 1` for inputs `o, o+1` read as a planar direction. -/
+def Unit2 (x : Nat → ℝ) (o : Nat) : Prop := x o * x o + x (o + 1) * x (o + 1) = 1
+
+theorem cos_f32_Vector_Vector (x : Nat → ℝ) :
+    (f32.«Angle::ctor(Vector,Vector)»).cosR x = cosineR (V3 x 0) (V3 x 3) := by
+  unfold_cos f32.«Angle::ctor(Vector,Vector)»
+
+theorem cos_f32_Vector_Direction (x : Nat → ℝ) (hb : Unit3 x 3) :
+    (f32.«Angle::ctor(Vector,Direction)»).cosR x = cosineR (V3 x 0) (V3 x 3) := by
+  unfold Unit3 at hb
+  unfold_cos f32.«Angle::ctor(Vector,Direction)»
+  simp [hb]
+
+theorem cos_f32_Direction_Vector (x : Nat → ℝ) (ha : Unit3 x 0) :
+    (f32.«Angle::ctor(Direction,Vector)»).cosR x = cosineR (V3 x 0) (V3 x 3) := by
+  unfold Unit3 at ha
+  unfold_cos f32.«Angle::ctor(Direction,Vector)»
+  simp [ha]
+
+theorem cos_f32_Direction_Direction (x : Nat → ℝ) (ha : Unit3 x 0) (hb : Unit3 x 3) :
+    (f32.«Angle::ctor(Direction,Direction)»).cosR x = cosineR (V3 x 0) (V3 x 3) := by
+  unfold Unit3 at ha hb
+  unfold_cos f32.«Angle::ctor(Direction,Direction)»
+  simp [ha, hb]
+
+theorem cos_f32_PlanarVector_PlanarVector (x : Nat → ℝ) :
+    (f32.«Angle::ctor(PlanarVector,PlanarVector)»).cosR x = cosineR (V2 x 0) (V2 x 2) := by
+  unfold_cos f32.«Angle::ctor(PlanarVector,PlanarVector)»
+
+theorem cos_f32_PlanarVector_PlanarDirection (x : Nat → ℝ) (hb : Unit2 x 2) :
+    (f32.«Angle::ctor(PlanarVector,PlanarDirection)»).cosR x = cosineR (V2 x 0) (V2 x 2) := by
+  unfold Unit2 at hb
+  unfold_cos f32.«Angle::ctor(PlanarVector,PlanarDirection)»
+  simp [hb]
+
+theorem cos_f32_PlanarDirection_PlanarVector (x : Nat → ℝ) (ha : Unit2 x 0) :
+    (f32.«Angle::ctor(PlanarDirection,PlanarVector)»).cosR x = cosineR (V2 x 0) (V2 x 2) := by
+  unfold Unit2 at ha
+  unfold_cos f32.«Angle::ctor(PlanarDirection,PlanarVector)»
+  simp [ha]
+
+theorem cos_f32_PlanarDirection_PlanarDirection (x : Nat → ℝ) (ha : Unit2 x 0) (hb : Unit2 x 2) :
+    (f32.«Angle::ctor(PlanarDirection,PlanarDirection)»).cosR x = cosineR (V2 x 0) (V2 x 2) := by
+  unfold Unit2 at ha hb
+  unfold_cos f32.«Angle::ctor(PlanarDirection,PlanarDirection)»
+  simp [ha, hb]
+
+theorem cos_f64_Vector_Vector (x : Nat → ℝ) :
+    (f64.«Angle::ctor(Vector,Vector)»).cosR x = cosineR (V3 x 0) (V3 x 3) := by
+  unfold_cos f64.«Angle::ctor(Vector,Vector)»
+
+theorem cos_f64_Vector_Direction (x : Nat → ℝ) (hb : Unit3 x 3) :
+    (f64.«Angle::ctor(Vector,Direction)»).cosR x = cosineR (V3 x 0) (V3 x 3) := by
+  unfold Unit3 at hb
+  unfold_cos f64.«Angle::ctor(Vector,Direction)»
+  simp [hb]
+
+theorem cos_f64_Direction_Vector (x : Nat → ℝ) (ha : Unit3 x 0) :
+    (f64.«Angle::ctor(Direction,Vector)»).cosR x = cosineR (V3 x 0) (V3 x 3) := by
+  unfold Unit3 at ha
+  unfold_cos f64.«Angle::ctor(Direction,Vector)»
+  simp [ha]
+
+theorem cos_f64_Direction_Direction (x : Nat → ℝ) (ha : Unit3 x 0) (hb : Unit3 x 3) :
+    (f64.«Angle::ctor(Direction,Direction)»).cosR x = cosineR (V3 x 0) (V3 x 3) := by
+  unfold Unit3 at ha hb
+  unfold_cos f64.«Angle::ctor(Direction,Direction)»
+  simp [ha, hb]
+
+theorem cos_f64_PlanarVector_PlanarVector (x : Nat → ℝ) :
+    (f64.«Angle::ctor(PlanarVector,PlanarVector)»).cosR x = cosineR (V2 x 0) (V2 x 2) := by
+  unfold_cos f64.«Angle::ctor(PlanarVector,PlanarVector)»
+
+theorem cos_f64_PlanarVector_PlanarDirection (x : Nat → ℝ) (hb : Unit2 x 2) :
+    (f64.«Angle::ctor(PlanarVector,PlanarDirection)»).cosR x = cosineR (V2 x 0) (V2 x 2) := by
+  unfold Unit2 at hb
+  unfold_cos f64.«Angle::ctor(PlanarVector,PlanarDirection)»
+  simp [hb]
+
+theorem cos_f64_PlanarDirection_PlanarVector (x : Nat → ℝ) (ha : Unit2 x 0) :
+    (f64.«Angle::ctor(PlanarDirection,PlanarVector)»).cosR x = cosineR (V2 x 0) (V2 x 2) := by
+  unfold Unit2 at ha
+  unfold_cos f64.«Angle::ctor(PlanarDirection,PlanarVector)»
+  simp [ha]
+
+theorem cos_f64_PlanarDirection_PlanarDirection (x : Nat → ℝ) (ha : Unit2 x 0) (hb : Unit2 x 2) :
+    (f64.«Angle::ctor(PlanarDirection,PlanarDirection)»).cosR x = cosineR (V2 x 0) (V2 x 2) := by
+  unfold Unit2 at ha hb
+  unfold_cos f64.«Angle::ctor(PlanarDirection,PlanarDirection)»
+  simp [ha, hb]
+
+theorem cos_f80_Vector_Vector (x : Nat → ℝ) :
+    (f80.«Angle::ctor(Vector,Vector)»).cosR x = cosineR (V3 x 0) (V3 x 3) := by
+  unfold_cos f80.«Angle::ctor(Vector,Vector)»
+
+theorem cos_f80_Vector_Direction (x : Nat → ℝ) (hb : Unit3 x 3) :
+    (f80.«Angle::ctor(Vector,Direction)»).cosR x = cosineR (V3 x 0) (V3 x 3) := by
+  unfold Unit3 at hb
+  unfold_cos f80.«Angle::ctor(Vector,Direction)»
+  simp [hb]
+
+theorem cos_f80_Direction_Vector (x : Nat → ℝ) (ha : Unit3 x 0) :
+    (f80.«Angle::ctor(Direction,Vector)»).cosR x = cosineR (V3 x 0) (V3 x 3) := by
+  unfold Unit3 at ha
+  unfold_cos f80.«Angle::ctor(Direction,Vector)»
+  simp [ha]
+
+theorem cos_f80_Direction_Direction (x : Nat → ℝ) (ha : Unit3 x 0) (hb : Unit3 x 3) :
+    (f80.«Angle::ctor(Direction,Direction)»).cosR x = cosineR (V3 x 0) (V3 x 3) := by
+  unfold Unit3 at ha hb
+  unfold_cos f80.«Angle::ctor(Direction,Direction)»
+  simp [ha, hb]
+
+theorem cos_f80_PlanarVector_PlanarVector (x : Nat → ℝ) :
+    (f80.«Angle::ctor(PlanarVector,PlanarVector)»).cosR x = cosineR (V2 x 0) (V2 x 2) := by
+  unfold_cos f80.«Angle::ctor(PlanarVector,PlanarVector)»
+
+theorem cos_f80_PlanarVector_PlanarDirection (x : Nat → ℝ) (hb : Unit2 x 2) :
+    (f80.«Angle::ctor(PlanarVector,PlanarDirection)»).cosR x = cosineR (V2 x 0) (V2 x 2) := by
+  unfold Unit2 at hb
+  unfold_cos f80.«Angle::ctor(PlanarVector,PlanarDirection)»
+  simp [hb]
+
+theorem cos_f80_PlanarDirection_PlanarVector (x : Nat → ℝ) (ha : Unit2 x 0) :
+    (f80.«Angle::ctor(PlanarDirection,PlanarVector)»).cosR x = cosineR (V2 x 0) (V2 x 2) := by
+  unfold Unit2 at ha
+  unfold_cos f80.«Angle::ctor(PlanarDirection,PlanarVector)»
+  simp [ha]
+
+theorem cos_f80_PlanarDirection_PlanarDirection (x : Nat → ℝ) (ha : Unit2 x 0) (hb : Unit2 x 2) :
+    (f80.«Angle::ctor(PlanarDirection,PlanarDirection)»).cosR x = cosineR (V2 x 0) (V2 x 2) := by
+  unfold Unit2 at ha hb
+  unfold_cos f80.«Angle::ctor(PlanarDirection,PlanarDirection)»
+  simp [ha, hb]
+
+/-- **C11 (the kernels compute the angle).** In every format, over the reals, the vector-vector
+kernels return `angleR a b = arccos (a·b / (|a||b|))` on every input (planar vectors embedded in three
+dimensions); so do the kernels that take directions, for arguments of length one. The quantity-level
+entry points are these kernels (`quantity_level_is_kernel`). -/
+theorem kernels_compute_the_angle (x : Nat → ℝ) :
+    (f32.«Angle::ctor(Vector,Vector)»).tree.valuesR x = some [some (angleR (V3 x 0) (V3 x 3))] ∧
+    (f64.«Angle::ctor(Vector,Vector)»).tree.valuesR x = some [some (angleR (V3 x 0) (V3 x 3))] ∧
+    (f80.«Angle::ctor(Vector,Vector)»).tree.valuesR x = some [some (angleR (V3 x 0) (V3 x 3))] ∧
+    (f32.«Angle::ctor(PlanarVector,PlanarVector)»).tree.valuesR x = some [some (angleR (V2 x 0) (V2 x 2))] ∧
+    (f64.«Angle::ctor(PlanarVector,PlanarVector)»).tree.valuesR x = some [some (angleR (V2 x 0) (V2 x 2))] ∧
+    (f80.«Angle::ctor(PlanarVector,PlanarVector)»).tree.valuesR x = some [some (angleR (V2 x 0) (V2 x 2))] := by
+  have mem : ∀ e, Chk.C11exact e = true → e.tree.valuesR x = some [some (Real.arccos (e.cosR x))] :=
+    fun e h => checkAngleExact_sound h x
+  refine ⟨?_, ?_, ?_, ?_, ?_, ?_⟩
+  · rw [mem _ (by decide), cos_f32_Vector_Vector]; rfl
+  · rw [mem _ (by decide), cos_f64_Vector_Vector]; rfl
+  · rw [mem _ (by decide), cos_f80_Vector_Vector]; rfl
+  · rw [mem _ (by decide), cos_f32_PlanarVector_PlanarVector]; rfl
+  · rw [mem _ (by decide), cos_f64_PlanarVector_PlanarVector]; rfl
+  · rw [mem _ (by decide), cos_f80_PlanarVector_PlanarVector]; rfl
+
+/-- The kernels with direction arguments, for arguments of length one (what every construction path of
+a direction establishes, C10). -/
+theorem direction_kernels_compute_the_angle (x : Nat → ℝ) :
+    (Unit3 x 3 → (f64.«Angle::ctor(Vector,Direction)»).tree.valuesR x = some [some (angleR (V3 x 0) (V3 x 3))]) ∧
+    (Unit3 x 0 → (f64.«Angle::ctor(Direction,Vector)»).tree.valuesR x = some [some (angleR (V3 x 0) (V3 x 3))]) ∧
+    (Unit3 x 0 → Unit3 x 3 →
+      (f64.«Angle::ctor(Direction,Direction)»).tree.valuesR x = some [some (angleR (V3 x 0) (V3 x 3))]) ∧
+    (Unit2 x 2 →
+      (f64.«Angle::ctor(PlanarVector,PlanarDirection)»).tree.valuesR x = some [some (angleR (V2 x 0) (V2 x 2))]) ∧
+    (Unit2 x 0 →
+      (f64.«Angle::ctor(PlanarDirection,PlanarVector)»).tree.valuesR x = some [some (angleR (V2 x 0) (V2 x 2))]) ∧
+    (Unit2 x 0 → Unit2 x 2 →
+      (f64.«Angle::ctor(PlanarDirection,PlanarDirection)»).tree.valuesR x =
+        some [some (angleR (V2 x 0) (V2 x 2))]) := by
+  have mem : ∀ e, Chk.C11exact e = true → e.tree.valuesR x = some [some (Real.arccos (e.cosR x))] :=
+    fun e h => checkAngleExact_sound h x
+  refine ⟨?_, ?_, ?_, ?_, ?_, ?_⟩
+  · intro hb; rw [mem _ (by decide), cos_f64_Vector_Direction x hb]; rfl
+  · intro ha; rw [mem _ (by decide), cos_f64_Direction_Vector x ha]; rfl
+  · intro ha hb; rw [mem _ (by decide), cos_f64_Direction_Direction x ha hb]; rfl
+  · intro hb; rw [mem _ (by decide), cos_f64_PlanarVector_PlanarDirection x hb]; rfl
+  · intro ha; rw [mem _ (by decide), cos_f64_PlanarDirection_PlanarVector x ha]; rfl
+  · intro ha hb; rw [mem _ (by decide), cos_f64_PlanarDirection_PlanarDirection x ha hb]; rfl
+
+/-! ### What that angle is (for all real vectors) -/
+
+open Matrix in
+/-- **C11 (symmetric).** -/
+theorem symmetric_over_reals (a b : Fin 3 → ℝ) : angleR a b = angleR b a := angleR_comm a b
+
+/-- **C11 (independent of the lengths).** -/
+theorem length_independent {s t : ℝ} (hs : 0 < s) (ht : 0 < t) (a b : Fin 3 → ℝ) :
+    angleR (s • a) (t • b) = angleR a b := angleR_smul_smul hs ht a b
+
+/-- **C11 (range).** -/
+theorem range_over_reals (a b : Fin 3 → ℝ) : 0 ≤ angleR a b ∧ angleR a b ≤ Real.pi := angleR_mem a b
+
+/-- **C11 (parallel).** -/
+theorem parallel_is_zero {a : Fin 3 → ℝ} (ha : a ≠ 0) {t : ℝ} (ht : 0 < t) : angleR a (t • a) = 0 :=
+  angleR_parallel ha ht
+
+/-- **C11 (antiparallel).** -/
+theorem antiparallel_is_pi {a : Fin 3 → ℝ} (ha : a ≠ 0) {t : ℝ} (ht : t < 0) : angleR a (t • a) = Real.pi :=
+  angleR_antiparallel ha ht
+
+open Matrix in
+/-- **C11 (atan2).** For non-zero vectors the angle `θ` is the number in `[0, π]` with
+`cos θ·|a||b| = a·b` and `sin θ·|a||b| = |a × b|`, i.e. `atan2(|a × b|, a·b)`. -/
+theorem is_atan2 {a b : Fin 3 → ℝ} (ha : a ≠ 0) (hb : b ≠ 0) :
+    Real.cos (angleR a b) * (Real.sqrt (a ⬝ᵥ a) * Real.sqrt (b ⬝ᵥ b)) = a ⬝ᵥ b ∧
+    Real.sin (angleR a b) * (Real.sqrt (a ⬝ᵥ a) * Real.sqrt (b ⬝ᵥ b)) =
+      Real.sqrt ((a ⨯₃ b) ⬝ᵥ (a ⨯₃ b)) ∧
+    0 ≤ angleR a b ∧ angleR a b ≤ Real.pi :=
+  ⟨cos_angleR ha hb, sin_angleR ha hb, angleR_mem a b⟩
+
+example : (![1, 2, 3] : Fin 3 → ℝ) ≠ 0 := by
+  intro h; have := congrFun h 0; simp at this
 
 example : AngleEntries.rows_0 ≠ [] := by simp [AngleEntries.rows_0]
 
